@@ -124,6 +124,11 @@ func Run(o *drv.Out) {
 							cs = append(cs, c)
 						}
 					}
+					if r.Intn(3) == 0 {
+						cs = append(cs, uint64(4+r.Intn(60)))
+					}
+					// validators list their committees in the order they submitted them: any order
+					r.Shuffle(len(cs), func(i, j int) { cs[i], cs[j] = cs[j], cs[i] })
 					v := &fsm.Validator{Address: pub.Address().Bytes(), PublicKey: pub.Bytes(), StakedAmount: stake,
 						Committees: cs, Output: pub.Address().Bytes(), Delegate: r.Intn(4) == 0}
 					if r.Intn(6) == 0 {
@@ -278,6 +283,58 @@ func Run(o *drv.Out) {
 					o.Fail("C13:historical-committee-changed", fmt.Sprintf("LoadCommittee(%d,%d) differs from the committee at the time of commit", chain, h), map[string]any{"case": ci, "op": op, "got": res, "want": want})
 				}
 				o.Nontrivial(fmt.Sprintf("%d|%s|%s", ci, op, res))
+			}
+		}
+		// scripted tail (every case): commit the population under one cap, change the cap (binding, then unlimited)
+		// in later history, commit again, then re-query EVERY committed height for every chain — the past
+		// committee must be the one derived under the cap in force at that height
+		tail := func(kind int, a, b uint64) {
+			switch kind {
+			case 0: // members(chain=a, cap=b) on validators
+				capV = b
+				setCaps()
+				sm.ResetCaches()
+				vs, e := sm.GetCommitteeMembers(a)
+				o.Op(fmt.Sprintf("members %d %d 0", a, b), showSet(vs, e))
+				o.Count("op:members")
+			case 1:
+				if _, e := db.Commit(); e != nil {
+					panic(e)
+				}
+				heightNow = db.Version()
+				sm.VerifSetHeight(heightNow)
+				snaps[heightNow] = snap{append([]*fsm.Validator{}, curList()...), capV, capD}
+				o.Op("commit", fmt.Sprintf("v=%d", heightNow))
+				o.Count("op:commit")
+			case 2:
+				res := drv.Recover(func() string { return showSet(sm.LoadCommittee(a, b)) })
+				op := fmt.Sprintf("membersAt %d %d", b, a)
+				o.Op(op, res)
+				o.Count("op:membersAt")
+				sn := snaps[b]
+				ref := refMembers(sn.vals, a, sn.capV, false)
+				var want []string
+				for _, v := range ref {
+					want = append(want, fmt.Sprintf("%s:%d", drv.Hex(v.PublicKey), v.StakedAmount))
+				}
+				if !strings.HasPrefix(res, "err:") && !strings.HasSuffix(res, "members="+strings.Join(want, ",")) {
+					o.Fail("C13:historical-committee-changed", fmt.Sprintf("LoadCommittee(%d,%d) differs from the committee at the time of commit", a, b), map[string]any{"case": ci, "op": op, "got": res, "want": want})
+				}
+				o.Nontrivial(fmt.Sprintf("%d|%s|%s", ci, op, res))
+			}
+		}
+		tail(0, 1, uint64(2+r.Intn(3)))
+		tail(1, 0, 0)
+		tail(0, 1, 1)
+		tail(1, 0, 0)
+		tail(0, uint64(1+r.Intn(3)), 0)
+		tail(1, 0, 0)
+		tail(0, 1, uint64(1+r.Intn(2)))
+		for h := uint64(1); h <= heightNow; h++ {
+			for c := uint64(0); c <= 3; c++ {
+				if h+3 >= heightNow || r.Intn(3) == 0 {
+					tail(2, c, h)
+				}
 			}
 		}
 		db.Close()
